@@ -805,15 +805,76 @@ theorem sums_eq (x y : List ℝ) :
   rw [sums_foldl]
   simp
 
-/-- **T16.4 Pearson = the moment formula** -/
-theorem pearson_eq (x y : List ℝ) :
+/-- the tail of `_pearson_corr` is the moment formula of the data the sums run over -/
+theorem moments_eq (n : ℝ) (x y : List ℝ) :
+    moments n x y =
+      (n * lsum (zip x y) (fun p => p.1 * p.2) - lsum (zip x y) (·.1) * lsum (zip x y) (·.2)) /
+      Real.sqrt ((n * lsum (zip x y) (fun p => p.1 * p.1) - lsum (zip x y) (·.1) ^ 2) *
+                 (n * lsum (zip x y) (fun p => p.2 * p.2) - lsum (zip x y) (·.2) ^ 2)) := by
+  unfold moments
+  simp only [sums_eq, fn_sqrt]
+  ring_nf
+
+/-- the moment formula on the raw samples -/
+theorem pearsonM_eq (x y : List ℝ) :
+    pearsonM x y =
+      ((x.length : ℝ) * lsum (zip x y) (fun p => p.1 * p.2) - lsum (zip x y) (·.1) * lsum (zip x y) (·.2)) /
+      Real.sqrt (((x.length : ℝ) * lsum (zip x y) (fun p => p.1 * p.1) - lsum (zip x y) (·.1) ^ 2) *
+                 ((x.length : ℝ) * lsum (zip x y) (fun p => p.2 * p.2) - lsum (zip x y) (·.2) ^ 2)) := by
+  unfold pearsonM
+  rw [moments_eq]
+  simp only [fn_ofNat]
+
+/-- sums over pairs shifted by `(a, b)` -/
+theorem lsum_shift (P : List (ℝ × ℝ)) (a b : ℝ) :
+    lsum P (fun p => p.1 - a) = lsum P (·.1) - (P.length : ℝ) * a ∧
+    lsum P (fun p => p.2 - b) = lsum P (·.2) - (P.length : ℝ) * b ∧
+    lsum P (fun p => (p.1 - a) * (p.2 - b)) =
+      lsum P (fun p => p.1 * p.2) - b * lsum P (·.1) - a * lsum P (·.2) + (P.length : ℝ) * (a * b) ∧
+    lsum P (fun p => (p.1 - a) * (p.1 - a)) =
+      lsum P (fun p => p.1 * p.1) - 2 * a * lsum P (·.1) + (P.length : ℝ) * (a * a) ∧
+    lsum P (fun p => (p.2 - b) * (p.2 - b)) =
+      lsum P (fun p => p.2 * p.2) - 2 * b * lsum P (·.2) + (P.length : ℝ) * (b * b) := by
+  induction P with
+  | nil => simp
+  | cons p P ih =>
+    obtain ⟨h1, h2, h3, h4, h5⟩ := ih
+    simp only [lsum_cons, List.length_cons, Nat.cast_add, Nat.cast_one, h1, h2, h3, h4, h5]
+    refine ⟨by ring, by ring, by ring, by ring, by ring⟩
+
+theorem lsum_zip_map (x y : List ℝ) (f g : ℝ → ℝ) (F : ℝ × ℝ → ℝ) :
+    lsum (zip (x.map f) (y.map g)) F = lsum (zip x y) (fun p => F (f p.1, g p.2)) := by
+  unfold lsum
+  rw [List.zip_map, List.map_map]
+  rfl
+
+/-- **the centring of the repaired `_pearson_corr` does not change the value over the reals**: the moment formula is
+invariant under translation of either sample (whatever the two subtracted constants are), so the model of the code
+equals the moment formula of the raw samples.  (In floating point the centred form is the one that does not cancel.) -/
+theorem pearson_eq_pearsonM (x y : List ℝ) (h : x.length = y.length) : pearson x y = pearsonM x y := by
+  rw [pearsonM_eq]
+  unfold pearson centre
+  simp only [fn_ofNat]
+  generalize (x.foldl (· + ·) (Nat.cast 0 : ℝ) / (x.length : ℝ)) = a
+  generalize (y.foldl (· + ·) (Nat.cast 0 : ℝ) / (x.length : ℝ)) = b
+  rw [moments_eq]
+  simp only [lsum_zip_map]
+  obtain ⟨h1, h2, h3, h4, h5⟩ := lsum_shift (zip x y) a b
+  have hL : ((zip x y).length : ℝ) = (x.length : ℝ) := by simp [h]
+  rw [hL] at h1 h2 h3 h4 h5
+  rw [h1, h2, h3, h4, h5]
+  congr 1
+  · ring
+  · congr 1
+    ring
+
+/-- **T16.4 Pearson = the moment formula** (of the raw samples; the code evaluates it on the centred ones) -/
+theorem pearson_eq (x y : List ℝ) (h : x.length = y.length) :
     pearson x y =
       ((x.length : ℝ) * lsum (zip x y) (fun p => p.1 * p.2) - lsum (zip x y) (·.1) * lsum (zip x y) (·.2)) /
       Real.sqrt (((x.length : ℝ) * lsum (zip x y) (fun p => p.1 * p.1) - lsum (zip x y) (·.1) ^ 2) *
                  ((x.length : ℝ) * lsum (zip x y) (fun p => p.2 * p.2) - lsum (zip x y) (·.2) ^ 2)) := by
-  unfold pearson
-  simp only [sums_eq, fn_ofNat, fn_sqrt]
-  ring_nf
+  rw [pearson_eq_pearsonM x y h, pearsonM_eq]
 
 theorem lsum_swap (x y : List ℝ) (f : ℝ × ℝ → ℝ) : lsum (zip y x) f = lsum (zip x y) (fun p => f p.swap) := by
   unfold lsum
@@ -821,7 +882,7 @@ theorem lsum_swap (x y : List ℝ) (f : ℝ × ℝ → ℝ) : lsum (zip y x) f =
 
 /-- **T16.4 Pearson is symmetric** -/
 theorem pearson_symm (x y : List ℝ) (h : x.length = y.length) : pearson x y = pearson y x := by
-  rw [pearson_eq, pearson_eq y x, ← h]
+  rw [pearson_eq x y h, pearson_eq y x h.symm, ← h]
   simp only [lsum_swap x y, Prod.fst_swap, Prod.snd_swap]
   have : (fun p : ℝ × ℝ => p.2 * p.1) = (fun p => p.1 * p.2) := by funext p; ring
   rw [this]
@@ -911,7 +972,7 @@ theorem pearson_abs_le_one (x y : List ℝ) (h : x.length = y.length)
   have hlen : ((zip x y).length : ℝ) = (x.length : ℝ) := by simp [h]
   have key := pearson_num_sq_le (zip x y) hP
   rw [hlen] at key
-  rw [pearson_eq, abs_div, abs_of_pos (Real.sqrt_pos.2 hden), div_le_one (Real.sqrt_pos.2 hden)]
+  rw [pearson_eq x y h, abs_div, abs_of_pos (Real.sqrt_pos.2 hden), div_le_one (Real.sqrt_pos.2 hden)]
   exact Real.abs_le_sqrt key
 
 end pearson
@@ -1020,6 +1081,6 @@ theorem pearson_self (x : List ℝ)
   have e3 : lsum (zip x x) (·.2) = lsum (zip x x) (·.1) := by
     unfold lsum; congr 1; apply List.map_congr_left
     intro p hp; rw [← mem_zip_self hp]
-  rw [pearson_eq, e1, e2, e3, ← sq, Real.sqrt_mul_self (le_of_lt hV), div_self (ne_of_gt hV)]
+  rw [pearson_eq x x rfl, e1, e2, e3, ← sq, Real.sqrt_mul_self (le_of_lt hV), div_self (ne_of_gt hV)]
 
 end Dsp.C16
